@@ -146,6 +146,10 @@ def finish(res, level_text, rule, assumptions, wall, exhaustive=True):
             violations.append(b)
     os.makedirs(os.path.join(VERIF, "replays"), exist_ok=True)
     os.makedirs(os.path.join(VERIF, "evidence"), exist_ok=True)
+    if os.environ.get("VERIF_DUMP_ALL"):                       # diagnosis aid: every mismatch, one JSON object per line
+        with open(os.environ["VERIF_DUMP_ALL"], "w") as f:
+            for b in violations:
+                f.write(json.dumps({k: v for k, v in b.items() if not k.startswith("_")}, default=str) + "\n")
     printed = set()
     for b in violations:
         key = short_hash([b.get("case"), b.get("opts"), b.get("steps"), b.get("handle")])
